@@ -74,6 +74,18 @@ CHECKS = {
              "sizes). A short write into a parity block counts as one damaged block of that stripe, so the single-device clause is "
              "checked there only with >= 2 parity levels.",
         design="DESIGN.md section 4, C07"),
+    "C11": dict(
+        category="exploration",
+        technique="stateful property-based testing (Hypothesis): model verdict for diff, tree-vs-list comparison, read-trace audit via LD_PRELOAD shim",
+        engine="hypothesis-cli",
+        text="Random sequences of file-system operations between syncs (all scan orders, threaded/sequential scan, trusted and "
+             "untrusted inodes). Before each sync the exit status of diff is compared with a verdict computed from the independently "
+             "parsed content file and the real tree; after each successful full sync diff must exit 0/equal, list must equal the tree "
+             "(names, sizes, ns time-stamps, targets, hard-link groups), empty dirs must be recorded, check must pass, the C06 oracle "
+             "must hold and the system-call trace must show that every pending block of every new/changed file was read.",
+        note="The diff verdict is skipped when the hard-link structure is ambiguous; empty directories alone are not a difference; "
+             "small arrays.",
+        design="DESIGN.md section 4, C11"),
 }
 
 NOT_YET = "check not built yet at this commit (planned in DESIGN.md section 4); not claimed until it runs"
